@@ -372,14 +372,16 @@ pub mod validators {
 /// Returns a `ValidationResult` with a list of all errors if any validation failed.
 pub fn combine_validations(results: Vec<ValidationResult>) -> ValidationResult {
     let mut all_errors = Vec::new();
+    let mut any_failed = false;
     for result in results {
         if let Err(mut errors) = result {
+            any_failed = true;
             all_errors.append(&mut errors);
         }
     }
-    if all_errors.is_empty() {
-        Ok(())
-    } else {
+    if any_failed {
         Err(all_errors)
+    } else {
+        Ok(())
     }
 }
